@@ -53,21 +53,47 @@ Qed.
 
 (* ---------------- expect ---------------- *)
 
-(** FULL STATEMENT (expect_any_split): for every split of [hb ++ payload] into
-    read chunks the state ends in Upgrade with the header's addresses and the
-    bytes handed to the pipe plus the unread bytes are exactly [payload].
-    Proved below per read ([expect_readable] is the only function of the state
-    that touches the stream; the loop that calls it is [ready_loop], whose
-    other handlers are no-ops in this state): whatever part of the stream has
-    arrived, a read never closes, never loses or reorders a byte, upgrades
-    exactly when the header is complete, with that header's addresses, and
-    [into_pipe] hands over exactly what was read behind the header.  The
-    induction over the chunk list on top of these per-read facts is not
-    mechanised: *_partial. *)
-Theorem expect_any_split_partial :
+(** expect_any_split: for EVERY split of [header ++ payload] into read chunks
+    (each chunk arrives, the poll reports READABLE, the session runs its
+    readiness pass [ready_inner]), the session ends in Upgrade with the
+    header's addresses, and the bytes [into_pipe] hands to the pipe, followed
+    by what is still unread in the socket and by the chunks not yet arrived,
+    are exactly the payload.  [hb] is any accepted header (IPv4, IPv6, UNSPEC,
+    LOCAL or PROXY, with or without a TLV tail) of at most 232 bytes. *)
+Theorem expect_any_split :
+  forall hb h pl chunks size bsock0 ba h0,
+    parse_v2 hb = POk [] h -> length hb <= window_unix ->
+    concat chunks = hb ++ pl -> window_unix <= size ->
+    exists e' x' rest,
+      feed (mkenv (SExpect expect_new) sock0 bsock0 size ba h0) chunks = (e', Some Upgrade, rest) /\
+      se e' = SExpect x' /\ xaddr x' = Some (haddr h) /\
+      dat (fbuf (expect_into_pipe x' size ba)) ++ inq (fsock e') ++ concat rest = pl.
+Proof.
+  intros hb h pl chunks size bsock0 ba h0 HP HL CC SZ.
+  set (e0 := mkenv (SExpect expect_new) sock0 bsock0 size ba h0).
+  assert (NZ : 0 < length hb) by (destruct hb; [discriminate HP|cbn; lia]).
+  assert (V0 : xvalid hb pl expect_new (fsock e0) (concat chunks)).
+  { unfold xvalid, e0. cbn. repeat split; auto. unfold window_v4. lia. }
+  destruct (feed_valid hb h pl HP HL chunks e0 expect_new eq_refl V0 eq_refl)
+    as (e' & x' & rest & r & F & SE & BS & BA & K).
+  destruct K as [(R & RE & V & EMP)|(R & D)].
+  - exfalso. destruct V as (ST & LH & _). rewrite EMP in ST. cbn [app] in ST. rewrite app_nil_r in ST.
+    apply (f_equal (@length N)) in ST. rewrite app_length in ST. lia.
+  - subst r. destruct D as (ST & AD & LB & LU & PV).
+    exists e', x', rest. split; [exact F|]. split; [exact SE|]. split; [exact AD|].
+    rewrite (expect_no_loss_lemma x' size ba _ h PV).
+    + apply (f_equal (skipn (length hb))) in ST.
+      rewrite skipn_app in ST. replace (length hb - length (xbuf x')) with 0 in ST by lia.
+      cbn [skipn] in ST. rewrite ST. rewrite skipn_app, skipn_all, Nat.sub_diag. reflexivity.
+    + rewrite skipn_length. lia.
+Qed.
+
+(** the per-read fact underneath: from any position in any split a read never
+    closes, and upgrades exactly when the header is complete *)
+Theorem expect_read_valid :
   forall hb h pl fut x s x' s' r,
     parse_v2 hb = POk [] h -> length hb <= window_unix ->
-    xbuf x ++ inq s ++ fut = hb ++ pl ->                 (* any position in any split *)
+    xbuf x ++ inq s ++ fut = hb ++ pl ->
     ieof s = false -> ierr s = false ->
     length (xbuf x) <= stage_len (xstage x) ->
     expect_readable x s = (x', s', r) ->
@@ -194,6 +220,14 @@ Example expect_nonvacuous :
   exists x' s', expect_readable expect_new (mksock (hb ++ [1;2;3]%N) false false None false []) = (x', s', Upgrade)
                 /\ dat (fbuf (expect_into_pipe x' 256 true)) = [1;2;3]%N.
 Proof. eexists. eexists. vm_compute. split; reflexivity. Qed.
+
+Example expect_any_split_nonvacuous :
+  let hb := into_bytes (header_new Proxy [1;2;3;4]%N 80 [5;6;7;8]%N 443) in
+  parse_v2 hb = POk [] (header_new Proxy [1;2;3;4]%N 80 [5;6;7;8]%N 443) /\
+  fst (fst (feed (mkenv (SExpect expect_new) sock0 sock0 256 true [])
+                 [firstn 5 hb; firstn 20 (skipn 5 hb); skipn 25 hb ++ [9;9]%N; [7]%N])) <>
+  mkenv (SExpect expect_new) sock0 sock0 256 true [].
+Proof. split; [vm_compute; reflexivity|vm_compute; discriminate]. Qed.
 
 Example pipe_nonvacuous :
   is_pipe (mkenv (SPipe (p_fe (pipe_new 16 true) (mkrd true false false false)))
